@@ -52,7 +52,10 @@ class GrowProgram:
 
 
 class GrowWorld:
-    def __init__(self, prog_factory):
+    def __init__(self, prog_factory, exit_at_once=False):
+        # exit_at_once: the program exits in the same instant in which it writes its last bytes (no poll sees
+        # 'file complete, program still running')
+        self.exit_at_once = exit_at_once
         self.factory = prog_factory
         self.proc = None
         self.sleeps = 0
@@ -72,6 +75,8 @@ class GrowWorld:
                 self.proc.returncode = 0
             else:
                 self.prog.grow()
+                if self.exit_at_once and self.prog.done():
+                    self.proc.returncode = 0
 
     def killpg(self, pgid, sig):
         self.proc.kill_()
@@ -80,7 +85,7 @@ class GrowWorld:
         return pid
 
 
-def run_case(data, raw, sizes, wd):
+def run_case(data, raw, sizes, wd, exit_at_once=False):
     import infretis.classes.engines.gromacs as gmod
 
     trr_file = os.path.join(wd, "t.trr")
@@ -88,7 +93,7 @@ def run_case(data, raw, sizes, wd):
     for f in (trr_file, edr_file):
         if os.path.exists(f):
             os.remove(f)
-    world = GrowWorld(lambda: GrowProgram(trr_file, edr_file, data, sizes))
+    world = GrowWorld(lambda: GrowProgram(trr_file, edr_file, data, sizes), exit_at_once=exit_at_once)
     w = fakeproc.World(None, None)
     w.Popen, w.sleep, w.killpg, w.getpgid = world.Popen, world.sleep, world.killpg, world.getpgid
     w.patch(gmod)
@@ -161,19 +166,19 @@ def _job(args):
         else:
             grid = sorted(set(range(0, total + 1, stride)) | set(struct_pts))
             cases = [[a, b] for i, a in enumerate(grid) for b in grid[i + 1:]]
-        for sizes in cases:
-            got, early, exc, live = run_case(data, info, sizes, wd)
+        for sizes, at_once in [(sz, ao) for sz in cases for ao in (False, True)]:
+            got, early, exc, live = run_case(data, info, sizes, wd, exit_at_once=at_once)
             n += 1
             live_total += live
             if exc and exc.startswith("Hang"):
                 hangs += 1
                 if hangs >= 2:
                     viols.setdefault("trr_reader:raised", (f"reader hangs (busy loop) for visible sizes {sizes}: {exc}",
-                                                           dict(kind="trr", endian=endian, double=double, nframes=nframes, with_f=with_f, sizes=sizes)))
+                                                           dict(kind="trr", endian=endian, double=double, nframes=nframes, with_f=with_f, sizes=sizes, at_once=at_once)))
                     break
             for clause, msg in judge(got, early, exc, raw):
-                viols.setdefault(f"trr_reader:{clause}", (f"endian={endian} double={double} frames={nframes} forces={with_f} visible sizes {sizes}: {msg}",
-                                                          dict(kind="trr", endian=endian, double=double, nframes=nframes, with_f=with_f, sizes=sizes)))
+                viols.setdefault(f"trr_reader:{clause}", (f"endian={endian} double={double} frames={nframes} forces={with_f} visible sizes {sizes}{' then exit with the last write' if at_once else ''}: {msg}",
+                                                          dict(kind="trr", endian=endian, double=double, nframes=nframes, with_f=with_f, sizes=sizes, at_once=at_once)))
     finally:
         scratch.rmtree(wd)
     return args, n, live_total, viols
@@ -218,7 +223,7 @@ def replay(data):
     blobs, raw = trr.frames(40, data["nframes"], endian=data["endian"], double=data["double"], with_f=data["with_f"])
     wd = scratch.mkdtemp("c13tr")
     try:
-        got, early, exc, live = run_case(b"".join(blobs), dict(bytes=blobs), data["sizes"], wd)
+        got, early, exc, live = run_case(b"".join(blobs), dict(bytes=blobs), data["sizes"], wd, exit_at_once=data.get("at_once", False))
         return [(f"trr_reader:{c}", m) for c, m in judge(got, early, exc, raw)]
     finally:
         scratch.rmtree(wd)
